@@ -57,8 +57,11 @@ TAdmit == /\ IsEvent("admit")
           /\ adm' = IF Ev.obs.allowed THEN "yes" ELSE "refused"
           /\ UNCHANGED <<inp, cfs, ratio, lastc>>
 
+\* diagnosis only (never set by bin/check): with VERIF_C14_STRICT_INVALID in the environment a malformed annotation is read
+\* as "no ratio configured" only - shows which histories rely on the "delivery ignored" reading (see NodeRatios)
+StrictInvalid == "VERIF_C14_STRICT_INVALID" \in DOMAIN IOEnv
 TNode == /\ IsEvent("node")
-         /\ ratio' \in NodeRatios(ratio, Ev.kind, Ev.rnum, Ev.rden)
+         /\ ratio' \in IF StrictInvalid /\ Ev.kind = "invalid" THEN {NoRatio} ELSE NodeRatios(ratio, Ev.kind, Ev.rnum, Ev.rden)
          /\ lastc' = NoConts
          /\ UNCHANGED <<inp, cfs, adm>>
 
